@@ -20,3 +20,43 @@ VARIANTS = [
  V("c22-o1a-ignore-flush-error", "C22", "C22.O1a", "version_set.go",
    '		if err := vs.manifest.Flush(); err != nil {\n			return errors.Wrap(err, "MANIFEST flush failed")\n		}', '		_ = vs.manifest.Flush()'),
 ]
+
+VARIANTS += [
+ V("c24-drop-file-sync", "C24", "C24.O1", "vfs/atomicfs/marker.go",
+   "	if err := f.Sync(); err != nil {\n		f.Close()\n		return err\n	}\n", ""),
+ V("c24-remove-new-marker", "C24", "C24.O1", "vfs/atomicfs/marker.go",
+   "	oldFilename := a.filename\n\n	// Create the new marker.", "	// Create the new marker.\n	oldFilename := \"\""),
+ V("c24-ignore-dirsync-error", "C24", "C24.O1", "vfs/atomicfs/marker.go",
+   "	// Sync the directory to ensure marker movement is synced.\n	if err := a.dirFD.Sync(); err != nil {", "	if err := a.dirFD.Sync(); err != nil && a.iter == 0 {"),
+ V("c24-scan-keeps-lowest-iter", "C24", "C24.T1", "vfs/atomicfs/marker.go",
+   'if state.filename == "" || state.iter < iter {', 'if state.filename == "" || state.iter > iter {'),
+ V("c24-filename-before-create", "C24", "C24.O1", "vfs/atomicfs/marker.go",
+   "	oldFilename := a.filename\n", "	oldFilename := a.filename\n	a.filename = dstFilename\n"),
+]
+
+VARIANTS += [
+ V("c18-skip-crc", "C18", "C18.G1", "record/record.go",
+   "			if checksum != crc.New(data).Value() {\n				err := ErrInvalidChunk", "			if checksum != crc.New(data).Value() && length > 0 {\n				err := ErrInvalidChunk"),
+ V("c18-skip-lognum-walsync", "C18", "C18.G1", "record/record.go",
+   "			if wireFormat == recyclableWireFormat || wireFormat == walSyncWireFormat {\n				if r.end+headerSize > r.n {\n					r.invalidOffset",
+   "			if wireFormat == recyclableWireFormat {\n				if r.end+headerSize > r.n {\n					r.invalidOffset"),
+ V("c18-accept-older-lognum", "C18", "C18.G1", "record/record.go",
+   "				if logNum != r.logNum {\n					// An EOF trailer encodes a log number that is 1 more than the\n					// current log number.\n					if logNum == 1+r.logNum && wantFirst {", "				if logNum > r.logNum {\n					if logNum == 1+r.logNum && wantFirst {"),
+ V("c18-forget-invalid-offset", "C18", "C18.O1", "record/record.go",
+   "				// The chunk straddles a 32KB boundary (or the end of file).\n				r.invalidOffset = uint64(r.blockNum)*blockSize + uint64(r.begin)\n				return ErrInvalidChunk", "				return ErrInvalidChunk"),
+]
+
+VARIANTS += [
+ V("c19-s1-reintroduce-F2", "C19", "C19.S1", "wal/reader.go",
+   "if errors.Is(err, record.ErrUnexpectedEOF) && r.currIndex < len(r.segments)-1 {", "if record.IsInvalidRecord(err) && r.currIndex < len(r.segments)-1 {"),
+ V("c19-s1-replay-tolerates-strict-tail", "C19", "C19.S1", "recovery.go",
+   "} else if errors.Is(err, record.ErrUnexpectedEOF) && !strictWALTail {", "} else if errors.Is(err, record.ErrUnexpectedEOF) {"),
+ V("c19-s1-replay-tolerates-invalid-chunk", "C19", "C19.S1", "recovery.go",
+   "			if errors.Is(err, io.EOF) {\n				break\n			} else if", "			if errors.Is(err, io.EOF) || errors.Is(err, record.ErrInvalidChunk) {\n				break\n			} else if"),
+ V("c19-o1-zeroed-bypasses-readahead", "C19", "C19.O1", "record/record.go",
+   "	r.err = r.nextChunk(true)\n	if errors.Is(r.err, ErrInvalidChunk) || errors.Is(r.err, ErrZeroedChunk) {", "	r.err = r.nextChunk(true)\n	if errors.Is(r.err, ErrInvalidChunk) {"),
+ V("c19-g2-confirm-without-crc", "C19", "C19.G2", "record/record.go",
+   "			if checksum != crc.New(r.buf[r.begin-headerSize+6:r.end]).Value() {", "			if length == 0 && checksum != crc.New(r.buf[r.begin-headerSize+6:r.end]).Value() {"),
+ V("c19-w1-synced-offset-unconditional", "C19", "C19.W1", "record/log_writer.go",
+   "		if synced {\n			// NB: syncedOffset must be advanced", "		if synced || err == nil {\n			// NB: syncedOffset must be advanced"),
+]
